@@ -825,7 +825,7 @@ _G = "urwid/widget/grid_flow.py"
 _F = "urwid/widget/frame.py"
 MUTANTS = [
     Mut("pile-item-types-reads-focus-of-empty", "urwid/widget/pile.py", "urwid.widget.pile.Pile.item_types", "        focus_position = self.focus_position if self.contents else 0\n", "        focus_position = self.focus_position\n", "GUARD|widget.pile.Pile.item_types|item_types setter: focus_position read without emptiness guard", nth=0),
-    Mut("gridflow-cell-width-reads-focus-of-empty", "urwid/widget/grid_flow.py", "urwid.widget.grid_flow.GridFlow.cell_width", "        if not self.contents:\n            # nothing to re-size, and no focus position to keep\n            self._cell_width = width\n            return\n", "", "GUARD|widget.grid_flow.GridFlow.cell_width|cell_width setter: focus_position read without emptiness guard"),
+    Mut("gridflow-cell-width-reads-focus-of-empty", "urwid/widget/grid_flow.py", "urwid.widget.grid_flow.GridFlow.cell_width", "        if not self.contents:\n            # nothing to re-size, and no focus position to keep\n            self._cell_width = width\n            self._invalidate()\n            return\n", "", "GUARD|widget.grid_flow.GridFlow.cell_width|cell_width setter: focus_position read without emptiness guard"),
     Mut("listbox-set-focus-no-empty-test", "urwid/widget/listbox.py", "ListBox.set_focus", "        if focus_widget is None:\n            raise IndexError(\"Can't set focus, ListBox is empty\")\n", "", "GUARD|widget.listbox.ListBox.set_focus|empty ListBox accepts a focus position"),
     Mut("walker-accepts-float-position", "urwid/widget/listbox.py", "SimpleListWalker.set_focus", "        if not isinstance(position, int) or not 0 <= position < len(self):", "        if not 0 <= position < len(self):", "GUARD|widget.listbox.SimpleListWalker.set_focus|non-integral position stored as focus"),
     Mut("twin-walker-integrality-own-test", "urwid/widget/listbox.py", "SimpleListWalker.set_focus", "        if not isinstance(position, int) or not 0 <= position < len(self):\n            raise IndexError(f\"No widget at position {position}\")\n", "        if not isinstance(position, int):\n            raise IndexError(f\"No widget at position {position}\")\n        if not 0 <= position < len(self):\n            raise IndexError(f\"No widget at position {position}\")\n", twin=True),
